@@ -112,8 +112,8 @@ class PersistenceLandscaper(BaseEstimator, TransformerMixin):
         y : Ignored
             Ignored; included for sklearn compatibility.
         """
-        # TODO: remove infinities
-        _dgm = X[self.hom_deg]
+        # points with an infinite coordinate are ignored, as PersLandscapeApprox does
+        _dgm = [pt for pt in X[self.hom_deg] if np.all(np.isfinite(pt))]
         if not self._start_fixed:
             self._start = min(_dgm, key=itemgetter(0))[0]
         if not self._stop_fixed:
